@@ -645,7 +645,7 @@ def inline_self_helpers(idx, ci):
     the helper's body (arguments substituted for parameters, the helper's locals renamed), and helpers all of whose uses were
     inlined are dropped from the method table.  Rules that describe what a method does then see the same thing whether or not a
     block shared by several methods was folded into a helper method.  Left alone: decorated methods, helpers with defaults /
-    *args / **kw, helpers that return, yield or assign to a parameter, helpers referenced in any other way than such a call."""
+    *args / **kw, parameterless helpers (named steps), helpers that return, yield or assign to a parameter, helpers referenced in any other way than such a call."""
     import copy as _c
     key = (id(idx), ci.qual)
     if key in _class_views:
@@ -660,7 +660,7 @@ def inline_self_helpers(idx, ci):
             continue
         params = [x.arg for x in a.args[1:]]
         body = [b for b in n.body if not (isinstance(b, ast.Expr) and isinstance(b.value, ast.Constant))]
-        bad = not body
+        bad = not body or not params      # a parameterless private method is a named step of its own, not a folded block
         for b in body:
             for x in ast.walk(b):
                 if isinstance(x, (ast.Yield, ast.YieldFrom, ast.Await, ast.Nonlocal, ast.Global, ast.Return, ast.FunctionDef, ast.Lambda)):
